@@ -227,15 +227,19 @@ pub fn c17(out: &mut dyn Write, tier: &str, rng: &mut Rng, st: &mut Stats) {
             if i % 4 == 3 && rng.chance(1, 2) { s.push('\n'); }
             if rng.chance(1, 10) { s.push(' '); }
         }
+        // short input: the text may stop anywhere, also in the middle of a row
+        if rng.chance(1, 4) { let keep_chars = rng.below(s.chars().count() as u64 + 1) as usize; s = s.chars().take(keep_chars).collect(); }
         cases.push((2, s));
     }
+    for p in ["1234\n34", "12343", "1", "12", "123412", "1234341221", ".2.4.1"] { cases.push((2, p.to_string())); }
     // root 3: a few puzzles (the formula has 729 variables; only structure and solution soundness)
     let solved9 = "534678912672195348198342567859761423426853791713924856961537284287419635345286179";
     let n3 = if tier == "thorough" { 50 } else { 4 };
     for _ in 0..n3 {
         let keep = 20 + rng.below(40);
         let blank9 = *rng.pick(&['.', '.', '\u{b7}', '\u{25a1}'][..]);
-        let s: String = solved9.chars().map(|c| if rng.below(81) < keep { c } else { blank9 }).collect();
+        let mut s: String = solved9.chars().map(|c| if rng.below(81) < keep { c } else { blank9 }).collect();
+        if rng.chance(1, 3) { let keep_chars = rng.below(82) as usize; s = s.chars().take(keep_chars).collect(); }
         cases.push((3, s));
     }
     for (root, puzzle) in cases {
